@@ -3,7 +3,7 @@
 import os
 import sqlite3
 
-from vfw import dataset, tree, model_classify
+from vfw import ambient, dataset, tree, model_classify
 from vfw.core import Reject, Violation, guarded, exception_signature
 
 
@@ -32,7 +32,7 @@ def classify_cli(case, s, j):
     Caller must close the connection and remove the directory."""
     import shutil
     import tempfile
-    directory = tempfile.mkdtemp(prefix='vfw-', dir=dataset.scratch_root())
+    directory = tempfile.mkdtemp(prefix=ambient.scratch_prefix(), dir=dataset.scratch_root())
     db = os.path.join(directory, 'data.sqlite3')
     try:
         dataset.cli_load(case, db, directory)
